@@ -7,6 +7,7 @@ The model is `FDA.Containers.step guard` (`lean/FDAModel/Containers.lean`), the 
 driver `Drivers/C11.lean` replays; `guard = true` (`stepSpec`) is the state machine with the
 `argvals_stand` check the property asks for, `guard = false` (`stepImpl`) the setter as coded.
 -/
+import FDAModel.Generated.Setters
 import FDAProofs.Lemmas.Containers
 
 namespace C11
@@ -470,5 +471,74 @@ theorem counterexample : ¬ full_statement := by
   have := (h [.mkDense (.dense [3] 1) (.dense [0, 1, 2] [3]), .setStand (.dense [4] 0)]).2.1
   revert this
   decide
+
+
+/-! ## The setter bodies read from the source are the setters of the model -/
+
+section SourceTie
+open FDA.PySetter FDA.Generated.Setters
+
+/-- Executing, statement by statement, the bodies the translator read from the source (`Generated/Setters.lean`,
+re-generated on every run) gives exactly the model's setters — same new object, same error class, and no assignment
+before a failing check: the `argvals` and `values` setters of dense objects, … -/
+theorem setter_src_eq_model_dense (pts : Shape) (g : Nat) (rows : List Nat) (vpts : Shape) (st : Stand) (a : ArgV) (v : ValV) :
+    outcome (.dense pts g rows vpts st) (.arg a) denseArgvalsSetter = some (setArg (.dense pts g rows vpts st) a) ∧
+    outcome (.dense pts g rows vpts st) (.val v) denseValuesSetter = some (setVal (.dense pts g rows vpts st) v) := by
+  constructor
+  · cases a with
+    | dense p g' =>
+      by_cases h : vpts = p <;>
+        simp [outcome, exec, execStmt, denseArgvalsSetter, Offered.isClass, setArg, Grid.withStand, Grid.trackedStand, h]
+    | irreg o => simp [outcome, exec, execStmt, denseArgvalsSetter, Offered.isClass, setArg]
+    | other => simp [outcome, exec, execStmt, denseArgvalsSetter, Offered.isClass, setArg]
+    | bad => simp [outcome, exec, execStmt, denseArgvalsSetter, Offered.isClass, setArg]
+  · cases v with
+    | dense r p =>
+      by_cases h : pts = p <;>
+        simp [outcome, exec, execStmt, denseValuesSetter, Offered.isClass, setVal, h]
+    | irreg o => simp [outcome, exec, execStmt, denseValuesSetter, Offered.isClass, setVal]
+    | other => simp [outcome, exec, execStmt, denseValuesSetter, Offered.isClass, setVal]
+    | bad => simp [outcome, exec, execStmt, denseValuesSetter, Offered.isClass, setVal]
+
+/-- … of irregular objects, … -/
+theorem setter_src_eq_model_irreg (ao : D AObs) (vo : D VObs) (st : Stand) (a : ArgV) (v : ValV) :
+    outcome (.irreg ao vo st) (.arg a) irregArgvalsSetter = some (setArg (.irreg ao vo st) a) ∧
+    outcome (.irreg ao vo st) (.val v) irregValuesSetter = some (setVal (.irreg ao vo st) v) := by
+  constructor
+  · cases a with
+    | irreg o =>
+      by_cases h : irregCompat (ofList o) vo = true <;>
+        simp [outcome, exec, execStmt, irregArgvalsSetter, Offered.isClass, setArg, Grid.withStand, Grid.trackedStand, h]
+    | dense p g' => simp [outcome, exec, execStmt, irregArgvalsSetter, Offered.isClass, setArg]
+    | other => simp [outcome, exec, execStmt, irregArgvalsSetter, Offered.isClass, setArg]
+    | bad => simp [outcome, exec, execStmt, irregArgvalsSetter, Offered.isClass, setArg]
+  · cases v with
+    | irreg o =>
+      by_cases h : irregCompat ao (ofList o) = true <;>
+        simp [outcome, exec, execStmt, irregValuesSetter, Offered.isClass, setVal, h]
+    | dense r p => simp [outcome, exec, execStmt, irregValuesSetter, Offered.isClass, setVal]
+    | other => simp [outcome, exec, execStmt, irregValuesSetter, Offered.isClass, setVal]
+    | bad => simp [outcome, exec, execStmt, irregValuesSetter, Offered.isClass, setVal]
+
+/-- … the `argvals_stand` setter (class of `Argvals`, class of the object's own sampling points, numbers of points,
+then the assignment), and `compatible_with` compares the numbers of points and raises `ValueError`. -/
+theorem setter_src_eq_model_stand (x : Grid) (a : ArgV) :
+    outcome x (.arg a) standSetter = some (setStand true x a) ∧
+    argvalsCompatibleWith = .raiseValueErrorIfPointsDiffer ∧ valuesCompatibleWith = .raiseValueErrorIfPointsDiffer := by
+  refine ⟨?_, rfl, rfl⟩
+  cases hs : a.standShape with
+  | none =>
+    cases a <;> simp [ArgV.standShape] at hs <;>
+      simp [outcome, exec, execStmt, standSetter, Offered.isClass, setStand, ArgV.standShape]
+  | some st =>
+    have hc : (Offered.arg a).isClass .argvals = true := by
+      cases a <;> simp [ArgV.standShape] at hs <;> rfl
+    by_cases hk : st.sameKind x.trackedStand = true
+    · by_cases hp : st.same x.trackedStand = true
+      · simp [outcome, exec, execStmt, standSetter, hc, hs, hk, hp, setStand]
+      · simp [outcome, exec, execStmt, standSetter, hc, hs, hk, hp, setStand]
+    · simp [outcome, exec, execStmt, standSetter, hc, hs, hk, setStand]
+
+end SourceTie
 
 end C11
